@@ -65,6 +65,45 @@ class Kernel:
             raise Unrecognised("mutation by `%s`" % (c[1] if c[0] == "call" else c[0]))
         if op == "call":
             nm, args = e[1], e[3]
+            # a closure value handed to a helper and called there:  f()  with f a ("closureval", key, captures, kernel)
+            if nm in ("call_once", "call_mut", "call") and args:
+                f = self.leaf(ds(args[0]))
+                if isinstance(f, tuple) and f and f[0] == "fnval":
+                    # a function item passed as a value (`<N64 as Float>::floor`) and called here
+                    actual = ds(args[1]) if len(args) > 1 else None
+                    if f[1] in FN1 and isinstance(actual, tuple) and actual[0] == "agg" and len(actual[3]) == 1:
+                        return ("fn", f[1], T(actual[3][0]))
+                    raise Unrecognised("function value `%s`" % f[1])
+                if isinstance(f, tuple) and f and f[0] == "closureval":
+                    cb = self.prog.bodies.get(f[1])
+                    if cb is None:
+                        raise Unrecognised("closure body not found")
+                    actual = ds(args[1]) if len(args) > 1 else None
+                    ps = {}
+                    if isinstance(actual, tuple) and actual[0] == "agg":
+                        for i_, a_ in enumerate(actual[3]):
+                            ps[2 + i_] = T(a_)
+                    outer, ups = f[3], f[2]
+                    ret, updates = closure_terms(self.prog, cb, ps, upvar_leaf=lambda u: outer.term(ups[u[1]]))
+                    if updates or ret is None:
+                        raise Unrecognised("closure argument with side effects")
+                    return ret
+            # a private helper of the crate: its value as a decision tree over its own branches, closure arguments kept
+            # symbolic until the helper calls them
+            hb = self.prog.bodies.get(e[2]) if isinstance(e[2], str) else None
+            if hb is not None and not hb.is_closure and hb.key not in self.prog.exported and depth < 40 and \
+                    any(isinstance(ds(a), tuple) and ds(a)[:2] == ("agg", "closure") for a in args):
+                ps = {}
+                for i_, a_ in enumerate(args):
+                    a2 = ds(a_)
+                    if isinstance(a2, tuple) and a2[:2] == ("agg", "closure"):
+                        ps[i_ + 1] = ("closureval", a2[2], a2[3], self)
+                    else:
+                        ps[i_ + 1] = T(a_)
+                ret, updates = closure_terms(self.prog, hb, ps)
+                if updates or ret is None:
+                    raise Unrecognised("helper `%s` is not a pure value" % nm)
+                return ret
             if nm in BIN and len(args) == 2:
                 return (BIN[nm], T(args[0]), T(args[1]))
             if nm == "neg" and len(args) == 1:
@@ -460,6 +499,22 @@ class Loop:
                 if isinstance(e, tuple) and e[0] == "phi" and e[1] in self.carried:
                     item = ("field", ("downcast", self.tb.call_expr(bb), "Some"), "0")
                     return e[1], item, self.init_expr(e[1])
+        # `while let Some(x) = v.pop()`: the elements of the vector v, last to first  ≙  v.into_iter().rev()
+        for bb in sorted(self.blocks):
+            t = self.tb.term(bb)
+            if t["k"] == "call" and callee_name(t) == "pop" and t["args"]:
+                v = ds(self.tb.operand_expr(t["args"][0], bb, "term"))
+                base = v
+                while isinstance(base, tuple) and base[0] == "phi":
+                    # the vector itself is loop-carried only through `pop`'s own mutation
+                    outs = [d for d in base[3] if d[0] not in self.blocks]
+                    if len(outs) != 1:
+                        break
+                    base = ds(self.tb.def_expr(base[1], outs[0]))
+                if isinstance(base, tuple) and base[0] == "param":
+                    item = ("field", ("downcast", self.tb.call_expr(bb), "Some"), "0")
+                    init = ("call", "rev", "<pop loop>", (("call", "into_iter", "<pop loop>", (base,), None),), None)
+                    return None, item, init
         return None
 
     def exit_condition(self):
